@@ -16,6 +16,7 @@ Obligation(r) ==
     \* a malformed model file is rejected with the library's exception (or an allocation failure); if it is accepted the
     \* model must be usable (evaluation returns; non-finite values are possible when the file holds non-finite coefficients)
     [] r.e = "mfile" -> r.out \in {"ok", "GeographicErr", "bad_alloc"} /\ (r.fault = "none" => r.out = "ok" /\ r.finite)
+    [] r.e = "gfile" -> r.out \in {"ok", "GeographicErr", "bad_alloc"} /\ (r.fault = "none" => r.out = "ok" /\ r.finite)
     \* the allocator of the sanitizer build refused a huge request: counts as an allocation failure
     [] r.e = "crash" /\ r.what = "alloc" -> TRUE
     \* the process died (signal, sanitizer report, time-out) while executing this vector
